@@ -55,15 +55,20 @@ def wiring(P, R):
         R.ob('C17.WIRE.1', isinstance(fl, int) and bool(fl & persist), ev[0], 'the SIGUSR1 event is persistent (flags %s include EV_PERSIST)' % (hex(fl) if isinstance(fl, int) else sx(ev[0].ev['args'][2])), key='sigusr1-persist')
         cb = P.direct_target(main, ev[0].ev['args'][3]['name'])
         cr = [s for s in cb.calls('conf_read')] if cb else []
-        okr = bool(cr) and is_var(cr[0].ev['args'][0], 'config_filename') and cb.path_avoiding(None, lambda t: t in cr, from_entry=True) is None
+        # "the configured file": the static object (a variable, or a member of a static settings record) whose value the
+        # start-up load in main was given too
+        first = [t for t in main.calls('conf_read')]
+        a0 = cr[0].ev['args'][0] if cr else None
+        named = isinstance(a0, dict) and a0.get('k') in ('var', 'mem') and (root_var(a0) is not None and root_var(a0).get('sc') not in ('local', 'param')) and bool(first) and sx(first[0].ev['args'][0]) == sx(a0)
+        okr = bool(cr) and named and cb.path_avoiding(None, lambda t: t in cr, from_entry=True) is None
         R.ob('C17.WIRE.1', okr, cr[0] if cr else (cb or main), 'the SIGUSR1 callback re-reads the configured file on every path', key='sigusr1-reload')
         # "the configured file": the name is the one the command line gave - an option handler stores its own argument -
         # and nothing rewrites it afterwards (a name resolved once at start-up follows a symbolic link's OLD target)
-        if cr and is_var(cr[0].ev['args'][0]):
-            nm = cr[0].ev['args'][0]['name']
+        if cr and isinstance(cr[0].ev['args'][0], dict) and cr[0].ev['args'][0].get('k') in ('var', 'mem'):
+            nm = sx(cr[0].ev['args'][0])
             for f2 in P.unit_fns(main.unit):
                 for t in f2.stores():
-                    if t.ev['k'] == 'store' and is_var(t.ev.get('lhs'), nm):
+                    if t.ev['k'] == 'store' and isinstance(t.ev.get('lhs'), dict) and t.ev['lhs'].get('k') in ('var', 'mem') and sx(t.ev['lhs']) == nm:
                         rhs = t.ev.get('rhs')
                         okw = is_var(rhs) and rhs['name'] in f2.params
                         R.ob('C17.WIRE.1', okw, t, 'the name of the file to re-read is only ever set from a handler\'s own argument (%s = %s in %s)' % (nm, sx(rhs), f2.name), key='config-name-writer')
